@@ -1,17 +1,24 @@
 // Harness for C08 (stream-id allocator, internal/streams): runs the REAL IDGenerator
 //
 //   - sequentially on random op sequences (`seq` lines: exact answers compared with the model; `smon` lines:
-//     every answer judged by the abstract id-set specification kept in this harness, runSmon), and
+//     every answer judged by the abstract id-set specification kept in this harness, runSmon), including
+//     histories in which the rotating offset word is preset near the ends of its representation range through
+//     the reflection hook /repo/verif_export_c08b.go (`O…` tokens: "any history"), and
 //
 //   - in lock-step: k goroutines run scripts of GetStream/Clear/Available; the `verif` yield
 //     points (internal/streams/yield_on.go) park a goroutine in front of every atomic operation
-//     and a deterministic scheduler lets exactly one goroutine perform exactly one atomic
-//     operation per scheduling decision (`conc` lines). The observation stream (yield point
-//     reached / value returned per decision, final Available and bitset) is compared with the
-//     Lean small-step model replaying the same schedule.
+//     and a deterministic scheduler lets exactly one goroutine run per scheduling decision (`conc` lines).
+//     The observation stream (yield point reached / values returned per decision, final Available and bitset) is
+//     compared with the Lean small-step model replaying the same schedule. The scheduler assumes nothing
+//     about the yield sequence of the code under test (see "lock-step scheduler" below).
 //
 //     The property monitors are evaluated on the real run of EVERY lock-step scenario, whether the scripts
 //     respect the client protocol (Clear only by the holder, once) or not (`mon` lines; runConcX).
+//
+//     Scenario families: random scripts / schedules (genConc), racing releases of one id (genConcRace),
+//     counter-vs-bitset windows (fixedWindows, genWindow: one goroutine paused in front of each atomic operation
+//     of a Clear / GetStream on a full generator while the others run complete calls), exhaustive enumeration of
+//     schedules (thorough tier).
 //
 // Every op line is a self-contained scenario (see lean/Driver/C08.lean for the grammar).
 package main
@@ -126,6 +133,15 @@ func seqTok(g *gocql.VerifStreams, w string) (string, bool) {
 			return "", false
 		}
 		return doClear(g, id), true
+	case strings.HasPrefix(w, "O"):
+		v, ok := presetValue(g, w)
+		if !ok {
+			return "", false
+		}
+		if !g.VerifSetField(offsetField, v) {
+			return "O!no-field-" + offsetField, true
+		}
+		return "O", true
 	case strings.HasPrefix(w, "G"):
 		c, err := strconv.Atoi(w[1:])
 		if err != nil || c < 0 {
@@ -144,6 +160,37 @@ func seqTok(g *gocql.VerifStreams, w string) (string, bool) {
 		return fmt.Sprintf("G=%d/%d/%d/%d", succ, x, sum, last), true
 	}
 	return "", false
+}
+
+// offsetField: the state of the allocator that depends on the NUMBER of past calls (rotating start word)
+const offsetField = "offset"
+
+// presetValue resolves a preset token: `O<v>` = v, `Ot<k>` = 2^w - k (top of the representation range of the
+// field, w = its width in bits: 32 in the unchanged code), `Om<k>` = 2^(w-1) - k (sign boundary).
+func presetValue(g *gocql.VerifStreams, w string) (uint64, bool) {
+	bits, _, ok := g.VerifFieldBits(offsetField)
+	if !ok || bits <= 0 || bits > 64 {
+		bits = 32
+	}
+	switch {
+	case strings.HasPrefix(w, "Ot"), strings.HasPrefix(w, "Om"):
+		k, err := strconv.ParseUint(w[2:], 10, 64)
+		if err != nil {
+			return 0, false
+		}
+		sh := uint(bits)
+		if w[1] == 'm' {
+			sh--
+		}
+		var top uint64
+		if sh < 64 {
+			top = uint64(1) << sh
+		}
+		return top - k, true // (2^64 wraps to 0: 0 - k is 2^64 - k)
+	default:
+		v, err := strconv.ParseUint(w[1:], 10, 64)
+		return v, err == nil
+	}
 }
 
 // ---------------------------------------------------------------- sequential spec monitor
@@ -206,6 +253,17 @@ func runSmon(proto int, toks []string) (res string) {
 			if v := checkAvail(); v != "" {
 				return v
 			}
+		case strings.HasPrefix(w, "O"):
+			// "any history": the rotating start offset is set to the value it has after that many calls; the
+			// specification does not know the offset, every later answer is judged as before
+			v, ok := presetValue(g, w)
+			if !ok {
+				return "bad-op"
+			}
+			g.VerifSetField(offsetField, v)
+			if v := checkAvail(); v != "" {
+				return v
+			}
 		case strings.HasPrefix(w, "G"):
 			c, err := strconv.Atoi(w[1:])
 			if err != nil || c < 0 {
@@ -245,36 +303,80 @@ func runSmon(proto int, toks []string) (res string) {
 }
 
 // ---------------------------------------------------------------- lock-step scheduler
+//
+// k goroutines run scripts; exactly one of them is runnable at any time. A goroutine hands control back
+// to the scheduler when it reaches a yield point of the allocator (hook) or when its script is finished;
+// NOTHING is assumed about the yield sequence of the code under test: a goroutine may perform a whole call,
+// or several calls, between two hand-overs (then the answers of all of them are part of the observation
+// of that scheduling decision), may never yield, may yield at point numbers the model does not know. The
+// yielding goroutine is identified by its goroutine id (registered when the goroutine starts), not by what
+// the scheduler believes to be running. A yield sequence the model does not reproduce is a
+// model-vs-code difference of the `conc` line; the property monitors (`mon` line) are evaluated on whatever
+// the real code did, from the bitset before / after every scheduling decision.
+
+type event struct {
+	t    int
+	kind byte     // 'h' goroutine started (gid), 'y' parked in front of yield point k, 'd' script finished
+	k    int      // yield point
+	gid  uint64   // 'h' only
+	rets []string // answers of the calls that returned since the previous event of this goroutine
+}
 
 type lockstep struct {
 	g      *gocql.VerifStreams
+	k      int
+	nw     int // number of bitset words
 	resume []chan struct{}
-	parked chan string
-	cur    int
-	pend   []string
+	events chan event
+	gids   map[uint64]int // goroutine id -> thread index
+	rets   [][]string     // per thread: answers not yet reported
 	done   []bool
 	mine   [][]int // per thread: ids acquired and not yet released through `r`
+	nsteps []int   // per thread: scheduling decisions it was given
+	steps  int
 	// monitors (independent of the model)
 	held     map[int]bool // protocol-respecting scenarios only: ids handed out and not given back
 	monitor  string
 	protocol bool
 	// false-exhaustion monitor: per thread inside GetStream, the ids that have been free at EVERY moment
-	// since the call began (sampled after every atomic step of any thread; nil = not inside GetStream)
+	// since the call began (sampled at the call and after every scheduling decision of any thread; nil = not
+	// inside GetStream)
 	getFree [][]uint64
 	// protocol-free monitors (ALL scenarios): per id, the number of GetStream calls that returned it and
 	// the number of Clear(id) calls that returned true or panicked 'negative' (both after clearing the bit)
 	got, rel map[int]int
 	w0       []uint64 // bitset after the sequential prefix
+	cur      []uint64 // bitset after the last scheduling decision
 	at       []int    // yield point the thread is parked at (0 = not inside the allocator)
+	inGet    []bool   // the thread is inside a GetStream call
 	curClear []int    // id of the Clear call the thread is in (-1 = none)
-	pendAcq  []int    // id whose bit the thread's GetStream has set by CAS, call not yet returned (-1 = none)
+	pendAcq  []int    // id whose bit the thread's GetStream has set, call not yet returned (-1 = none)
+	negPanic []int    // ids of the Clear calls that panicked 'negative' during the current scheduling decision
 	c0       bool     // excluded case 1 has happened: Clear(0) called
-	excl     bool     // excluded case 1 or 2 (a Clear CAS cleared the bit of an id whose GetStream had not returned yet)
+	excl     bool     // excluded case 1 or 2 (a Clear cleared the bit of an id whose GetStream had not returned yet)
 	nRogue   int
+	unquiet  bool // a thread hung or was abandoned (step budget): no quiescent final state
+	stray    int  // yields of goroutines the scheduler does not know (they are not parked)
+	confused int  // events of a thread other than the one that was resumed (cannot happen)
+	multi    int  // scheduling decisions in which more than one call returned / a call returned without any yield
+}
+
+// goid: id of the calling goroutine ("goroutine 123 [running]:")
+func goid() uint64 {
+	var buf [48]byte
+	n := runtime.Stack(buf[:], false)
+	var id uint64
+	for i := len("goroutine "); i < n && buf[i] >= '0' && buf[i] <= '9'; i++ {
+		id = id*10 + uint64(buf[i]-'0')
+	}
+	return id
 }
 
 // wordsNow: the bitset words (bit 63-j of word w = id 64w+j), read while every other goroutine is parked
 func wordsNow(g *gocql.VerifStreams) []uint64 {
+	if ws, ok := g.VerifWords(nil); ok {
+		return ws
+	}
 	f := strings.Fields(strings.TrimRight(g.String(), "\x00"))
 	ws := make([]uint64, len(f))
 	for i, hx := range f {
@@ -295,47 +397,55 @@ func freeMask(g *gocql.VerifStreams) []uint64 {
 }
 
 // sample intersects every in-progress GetStream's candidate set with the ids free right now
-func (ls *lockstep) sample() {
-	var now []uint64
+func (ls *lockstep) sample(now []uint64) {
 	for _, m := range ls.getFree {
 		if m == nil {
 			continue
 		}
-		if now == nil {
-			now = freeMask(ls.g)
-		}
 		for i := range m {
-			m[i] &= now[i]
+			if i < len(now) {
+				m[i] &= ^now[i]
+			} else {
+				m[i] = 0
+			}
 		}
 	}
 }
 
 var active *lockstep
 
+func (ls *lockstep) takeRets(t int) []string {
+	r := ls.rets[t]
+	ls.rets[t] = nil
+	return r
+}
+
 func hook(k int) {
 	ls := active
 	if ls == nil {
 		return
 	}
-	t := ls.cur
-	ls.at[t] = k
-	ev := "y" + strconv.Itoa(k)
-	if ls.pend[t] != "" {
-		ev = ls.pend[t] + ":" + ev
-		ls.pend[t] = ""
+	t, ok := ls.gids[goid()]
+	if !ok { // not one of the scheduled goroutines: let it run
+		ls.stray++
+		return
 	}
-	ls.parked <- ev
+	ls.at[t] = k
+	ls.events <- event{t: t, kind: 'y', k: k, rets: ls.takeRets(t)}
 	<-ls.resume[t]
 }
 
 func (ls *lockstep) thread(t int, script []string) {
+	ls.events <- event{t: t, kind: 'h', gid: goid()}
 	<-ls.resume[t]
 	for _, op := range script {
 		var ret string
 		switch {
 		case op == "g":
 			ls.getFree[t] = freeMask(ls.g)
+			ls.inGet[t] = true
 			ret = doGet(ls.g)
+			ls.inGet[t] = false
 			ls.pendAcq[t] = -1
 			if strings.HasSuffix(ret, ":f") {
 			scan:
@@ -379,14 +489,10 @@ func (ls *lockstep) thread(t int, script []string) {
 		default:
 			ret = "bad-op"
 		}
-		ls.pend[t] = ret
+		ls.rets[t] = append(ls.rets[t], ret)
 		ls.at[t] = 0
 	}
-	ev := "d"
-	if ls.pend[t] != "" {
-		ev = ls.pend[t] + ":d"
-	}
-	ls.parked <- ev
+	ls.events <- event{t: t, kind: 'd', rets: ls.takeRets(t)}
 }
 
 // clear: Clear(id) called by thread t (running; the first atomic operation of the call is performed now)
@@ -403,10 +509,8 @@ func (ls *lockstep) clear(t, id int) string {
 		ls.rel[id]++
 	case "F":
 	case "crash:negative":
-		ls.rel[id]++ // the bit was cleared and the counter decremented before the panic
-		if !ls.excl {
-			ls.monitor += fmt.Sprintf(" MONITOR:negative-streams-inuse-panic-in-Clear-%d", id)
-		}
+		ls.rel[id]++                          // the bit was cleared and the counter decremented before the panic
+		ls.negPanic = append(ls.negPanic, id) // judged by the scheduler, after the bookkeeping of this decision
 	case "crash:index":
 		if id < ls.g.NumStreams() {
 			ls.monitor += fmt.Sprintf(" MONITOR:index-panic-in-Clear-%d", id)
@@ -417,7 +521,43 @@ func (ls *lockstep) clear(t, id int) string {
 	return ret
 }
 
-// step lets thread t perform one atomic operation; returns the observation.
+const watchdog = 20 * time.Second
+
+// advance resumes thread t and waits for its next event. A goroutine that neither yields nor finishes
+// within the watchdog while it is the only runnable one is stuck inside the allocator.
+func (ls *lockstep) advance(t int) (ev event, hung bool) {
+	tm := time.NewTimer(watchdog)
+	defer tm.Stop()
+	select {
+	case ls.resume[t] <- struct{}{}:
+	case <-tm.C:
+		return event{}, true
+	}
+	for {
+		select {
+		case ev = <-ls.events:
+			if ev.t == t {
+				return ev, false
+			}
+			ls.confused++ // an event of a goroutine that was not resumed: cannot happen (it stays parked in the send)
+		case <-tm.C:
+			return event{}, true
+		}
+	}
+}
+
+func bitsOf(ws []uint64, f func(id int)) {
+	for w, v := range ws {
+		for j := 0; v != 0 && j < 64; j++ {
+			if v>>(63-uint(j))&1 == 1 {
+				f(w*64 + j)
+			}
+		}
+	}
+}
+
+// step: one scheduling decision, thread t runs until its next hand-over; returns the observation
+// `<t>:[<ret>:…]y<k>` (parked in front of yield point k) or `<t>:[<ret>:…]d` (script finished).
 func (ls *lockstep) step(t int) string {
 	if t < 0 || t >= len(ls.done) {
 		return strconv.Itoa(t) + ":bad"
@@ -425,58 +565,110 @@ func (ls *lockstep) step(t int) string {
 	if ls.done[t] {
 		return strconv.Itoa(t) + ":-"
 	}
-	ls.cur = t
-	prev := ls.at[t]
-	var before []uint64
-	if prev == 5 {
-		before = wordsNow(ls.g)
+	wasGet, wasClear := ls.inGet[t], ls.curClear[t]
+	before := ls.cur
+	ev, hung := ls.advance(t)
+	ls.steps++
+	ls.nsteps[t]++
+	if hung {
+		// dump every goroutine so that the report shows where the goroutine is stuck
+		ls.done[t] = true
+		ls.unquiet = true
+		hangs++
+		buf := make([]byte, 1<<20)
+		fmt.Fprintf(os.Stderr, "c08: goroutine %d did not reach a yield point / return within %v; goroutine dump:\n%s\n", t, watchdog, buf[:runtime.Stack(buf, true)])
+		return strconv.Itoa(t) + ":hang"
 	}
-	ls.resume[t] <- struct{}{}
-	select {
-	case ev := <-ls.parked:
-		if ev == "d" || strings.HasSuffix(ev, ":d") {
-			ls.done[t] = true
-		}
-		// bookkeeping for the excluded case 2 (observations of the real run only)
-		if prev == 5 && ev == "y7" { // GetStream's CAS succeeded: which bit did it set?
-			for w, v := range wordsNow(ls.g) {
-				if d := v &^ before[w]; d != 0 {
-					for j := 0; j < 64; j++ {
-						if d>>(63-uint(j))&1 == 1 {
-							ls.pendAcq[t] = w*64 + j
-						}
-					}
+	after := wordsNow(ls.g)
+	ls.cur = after
+	if ev.kind == 'd' {
+		ls.done[t] = true
+	}
+	if len(ev.rets) > 1 {
+		ls.multi++
+	}
+	// bookkeeping for the excluded case 2, from the bitset before / after the decision (not from yield numbers)
+	if wasGet && len(ev.rets) == 0 { // still inside the GetStream call: which bit did it set?
+		for w := range after {
+			if w < len(before) {
+				if d := after[w] &^ before[w]; d != 0 {
+					bitsOf([]uint64{d}, func(j int) { ls.pendAcq[t] = w*64 + j })
 				}
 			}
 		}
-		if prev == 9 && ev == "y11" { // Clear's CAS succeeded
+	}
+	if wasClear >= 0 && wasClear/64 < len(before) && wasClear/64 < len(after) { // did the Clear clear its bit now?
+		m := uint64(1) << (63 - uint(wasClear%64))
+		if before[wasClear/64]&m != 0 && after[wasClear/64]&m == 0 {
 			for u, id := range ls.pendAcq {
-				if u != t && id >= 0 && id == ls.curClear[t] {
+				if u != t && id == wasClear {
 					ls.excl = true
 					ls.nRogue++
 				}
 			}
 		}
-		ls.sample()
-		return strconv.Itoa(t) + ":" + ev
-	case <-time.After(20 * time.Second):
-		// a goroutine that does not reach its next yield point / return within 20 s while it is the only
-		// runnable one is stuck inside the allocator: dump every goroutine so that the report shows where
-		ls.done[t] = true
-		buf := make([]byte, 1<<20)
-		fmt.Fprintf(os.Stderr, "c08: goroutine %d did not reach its next yield point within 20s; goroutine dump:\n%s\n", t, buf[:runtime.Stack(buf, true)])
-		return strconv.Itoa(t) + ":hang"
 	}
+	for _, id := range ls.negPanic {
+		if !ls.excl {
+			ls.monitor += fmt.Sprintf(" MONITOR:negative-streams-inuse-panic-in-Clear-%d", id)
+		}
+	}
+	ls.negPanic = ls.negPanic[:0]
+	// false-exhaustion candidates: ids free right now; a bit the GetStream call itself has just set does not make
+	// the id "in use by somebody else": it stays a candidate of THAT call
+	var own []uint64
+	if wasGet && ls.getFree[t] != nil {
+		own = append(own, ls.getFree[t]...)
+		for w := range own {
+			if w < len(before) && w < len(after) {
+				own[w] &= after[w] &^ before[w]
+			} else {
+				own[w] = 0
+			}
+		}
+	}
+	ls.sample(after)
+	if own != nil && ls.getFree[t] != nil {
+		for w := range own {
+			ls.getFree[t][w] |= own[w]
+		}
+	}
+	o := strconv.Itoa(t) + ":"
+	for _, r := range ev.rets {
+		o += r + ":"
+	}
+	if ev.kind == 'd' {
+		return o + "d"
+	}
+	return o + "y" + strconv.Itoa(ev.k)
 }
 
 // runConc executes one `conc` scenario. If sched is nil the schedule is produced by `choose`
-// (used by the enumeration), which gets the list of unfinished threads.
-func runConc(proto, k int, pre []string, scripts [][]string, sched []int, choose func(enabled []int) int) (answer string, full []int, verdict string) {
+// (used by the enumeration and the window scenarios), which gets the list of unfinished threads.
+func runConc(proto, k int, pre []string, scripts [][]string, sched []int, choose func(ls *lockstep, enabled []int) int) (answer string, full []int, verdict string) {
 	answer, full, verdict, _ = runConcX(proto, k, pre, scripts, sched, choose)
 	return
 }
 
-func runConcX(proto, k int, pre []string, scripts [][]string, sched []int, choose func(enabled []int) int) (answer string, full []int, verdict string, ls *lockstep) {
+// hangs: scheduling decisions that ended in the watchdog (each costs 20 s of wall time): after maxHangs of them
+// the remaining lock-step scenarios of the run are skipped (their `conc` line then differs from the model's)
+var hangs int
+
+const maxHangs = 2
+
+// livelocks: threads abandoned because, running alone, they kept yielding beyond the step budget without ever
+// returning (their goroutines stay parked for good): after maxLivelocks the remaining lock-step scenarios are skipped
+var livelocks int
+
+const maxLivelocks = 25
+
+func runConcX(proto, k int, pre []string, scripts [][]string, sched []int, choose func(ls *lockstep, enabled []int) int) (answer string, full []int, verdict string, ls *lockstep) {
+	if hangs >= maxHangs {
+		return "skipped-after-hangs", sched, "ok", nil
+	}
+	if livelocks >= maxLivelocks {
+		return "skipped-after-livelocks", sched, "ok", nil
+	}
 	g := gocql.VerifStreamsNew(proto)
 	active = nil
 	for _, w := range pre {
@@ -484,9 +676,12 @@ func runConcX(proto, k int, pre []string, scripts [][]string, sched []int, choos
 			return "bad-op", nil, "bad-op", nil
 		}
 	}
-	ls = &lockstep{g: g, resume: make([]chan struct{}, k), parked: make(chan string), pend: make([]string, k),
-		done: make([]bool, k), mine: make([][]int, k), held: map[int]bool{}, getFree: make([][]uint64, k),
-		got: map[int]int{}, rel: map[int]int{}, w0: wordsNow(g), at: make([]int, k), curClear: make([]int, k), pendAcq: make([]int, k)}
+	ls = &lockstep{g: g, k: k, resume: make([]chan struct{}, k), events: make(chan event), rets: make([][]string, k),
+		done: make([]bool, k), mine: make([][]int, k), held: map[int]bool{}, getFree: make([][]uint64, k), gids: map[uint64]int{},
+		got: map[int]int{}, rel: map[int]int{}, w0: wordsNow(g), at: make([]int, k), curClear: make([]int, k), pendAcq: make([]int, k),
+		inGet: make([]bool, k), nsteps: make([]int, k)}
+	ls.cur = append([]uint64{}, ls.w0...)
+	ls.nw = len(ls.w0)
 	for t := 0; t < k; t++ {
 		ls.resume[t] = make(chan struct{})
 		ls.curClear[t], ls.pendAcq[t] = -1, -1
@@ -514,26 +709,35 @@ func runConcX(proto, k int, pre []string, scripts [][]string, sched []int, choos
 			}
 		}
 	}
-	active = ls
 	for t := 0; t < k; t++ {
 		go ls.thread(t, scripts[t])
 	}
-	// start every thread up to its first yield point (no atomic operation is performed)
+	for t := 0; t < k; t++ { // every goroutine reports its id and parks
+		ev := <-ls.events
+		ls.gids[ev.gid] = ev.t
+	}
+	active = ls
+	var obs []string
+	// start every thread up to its first yield point (the unchanged code performs no atomic operation before
+	// it; a thread that returns from calls already now is part of the observation)
 	for t := 0; t < k; t++ {
-		ls.cur = t
-		ls.resume[t] <- struct{}{}
-		ev := <-ls.parked
-		if ev == "d" {
-			ls.done[t] = true
+		o := ls.step(t)
+		ls.nsteps[t] = 0
+		if strings.Count(o, ":") > 1 || strings.HasSuffix(o, ":hang") {
+			obs = append(obs, strconv.Itoa(t)+":start:"+strings.SplitN(o, ":", 2)[1])
 		}
 	}
-	var obs []string
+	budget := func(t int) int { return 4*(len(scripts[t])*(ls.nw+8)+ls.nw+8) + 64 }
+	total := 0
+	for t := 0; t < k; t++ {
+		total += budget(t)
+	}
 	for _, t := range sched {
 		obs = append(obs, ls.step(t))
 		full = append(full, t)
 	}
 	if choose != nil {
-		for {
+		for n := 0; n < 4*total; n++ {
 			var en []int
 			for t := 0; t < k; t++ {
 				if !ls.done[t] {
@@ -543,64 +747,80 @@ func runConcX(proto, k int, pre []string, scripts [][]string, sched []int, choos
 			if len(en) == 0 {
 				break
 			}
-			t := choose(en)
+			t := choose(ls, en)
 			obs = append(obs, ls.step(t))
 			full = append(full, t)
 		}
 	}
 	for t := 0; t < k; t++ {
-		for !ls.done[t] {
+		for n := 0; !ls.done[t]; n++ {
+			if n >= budget(t) {
+				// running alone the goroutine keeps yielding without ever returning: abandoned (it stays parked)
+				obs = append(obs, strconv.Itoa(t)+":livelock")
+				livelocks++
+				ls.done[t] = true
+				ls.unquiet = true
+				break
+			}
 			obs = append(obs, ls.step(t))
 		}
 	}
 	active = nil
-	// monitors at quiescence, ALL scenarios (no client protocol assumed):
-	// (1) per id: successful releases + [bit set now] = acquisitions + [bit set after the prefix]
+	if ls.stray > 0 {
+		obs = append(obs, fmt.Sprintf("stray-yields:%d", ls.stray))
+	}
+	if ls.confused > 0 {
+		obs = append(obs, fmt.Sprintf("scheduler-confused:%d", ls.confused))
+	}
 	wEnd := wordsNow(g)
-	bit := func(ws []uint64, id int) int {
-		if id/64 >= len(ws) {
-			return 0
+	if !ls.unquiet {
+		// monitors at quiescence, ALL scenarios (no client protocol assumed):
+		// (1) per id: successful releases + [bit set now] = acquisitions + [bit set after the prefix]
+		bit := func(ws []uint64, id int) int {
+			if id < 0 || id/64 >= len(ws) {
+				return 0
+			}
+			return int(ws[id/64] >> (63 - uint(id%64)) & 1)
 		}
-		return int(ws[id/64] >> (63 - uint(id%64)) & 1)
-	}
-	var ids []int
-	for id := range ls.got {
-		ids = append(ids, id)
-	}
-	for id := range ls.rel {
-		if _, dup := ls.got[id]; !dup {
+		var ids []int
+		for id := range ls.got {
 			ids = append(ids, id)
 		}
-	}
-	sortInts(ids)
-	a, b := append([]uint64{}, wEnd...), append([]uint64{}, ls.w0...)
-	for _, id := range ids {
-		if ls.rel[id]+bit(wEnd, id) != ls.got[id]+bit(ls.w0, id) {
-			ls.monitor += fmt.Sprintf(" MONITOR:id-%d-released-%d-times-acquired-%d-times-bit-before-%d-after-%d",
-				id, ls.rel[id], ls.got[id], bit(ls.w0, id), bit(wEnd, id))
-		}
-		if id/64 < len(a) {
-			a[id/64] &^= 1 << (63 - uint(id%64))
-			b[id/64] &^= 1 << (63 - uint(id%64))
-		}
-	}
-	for w := range a {
-		if a[w] != b[w] {
-			ls.monitor += fmt.Sprintf(" MONITOR:word-%d-changed-%x-to-%x-without-acquisition-or-release", w, b[w], a[w])
-			break
-		}
-	}
-	// (2) Available() = number of zero bits of the bitset
-	zeros := 0
-	for _, v := range wEnd {
-		for j := 0; j < 64; j++ {
-			if v>>uint(j)&1 == 0 {
-				zeros++
+		for id := range ls.rel {
+			if _, dup := ls.got[id]; !dup {
+				ids = append(ids, id)
 			}
 		}
-	}
-	if want := fmt.Sprintf("a=%d", zeros); want != doAvail(g) {
-		ls.monitor += " MONITOR:available-" + doAvail(g) + "-but-zero-bits-" + want
+		sortInts(ids)
+		a, b := append([]uint64{}, wEnd...), append([]uint64{}, ls.w0...)
+		for _, id := range ids {
+			if ls.rel[id]+bit(wEnd, id) != ls.got[id]+bit(ls.w0, id) {
+				ls.monitor += fmt.Sprintf(" MONITOR:id-%d-released-%d-times-acquired-%d-times-bit-before-%d-after-%d",
+					id, ls.rel[id], ls.got[id], bit(ls.w0, id), bit(wEnd, id))
+			}
+			if id >= 0 && id/64 < len(a) && id/64 < len(b) {
+				a[id/64] &^= 1 << (63 - uint(id%64))
+				b[id/64] &^= 1 << (63 - uint(id%64))
+			}
+		}
+		for w := range a {
+			if w >= len(b) || a[w] != b[w] {
+				ls.monitor += fmt.Sprintf(" MONITOR:word-%d-changed-without-acquisition-or-release", w)
+				break
+			}
+		}
+		// (2) Available() = number of zero bits of the bitset
+		zeros := 0
+		for _, v := range wEnd {
+			for j := 0; j < 64; j++ {
+				if v>>uint(j)&1 == 0 {
+					zeros++
+				}
+			}
+		}
+		if want := fmt.Sprintf("a=%d", zeros); want != doAvail(g) {
+			ls.monitor += " MONITOR:available-" + doAvail(g) + "-but-zero-bits-" + want
+		}
 	}
 	for _, o := range obs {
 		if strings.Contains(o, "hang") {
@@ -608,11 +828,13 @@ func runConcX(proto, k int, pre []string, scripts [][]string, sched []int, choos
 		}
 	}
 	if ls.protocol { // additionally, under the client protocol: held ids = set bits, no panic at all
-		if want := fmt.Sprintf("a=%d", g.NumStreams()-1-len(ls.held)); want != doAvail(g) {
-			ls.monitor += " MONITOR:available-" + doAvail(g) + "-but-held-" + want
-		}
-		if len(ls.held) != len(idsInUse(g)) {
-			ls.monitor += fmt.Sprintf(" MONITOR:held-%d-but-bits-%d", len(ls.held), len(idsInUse(g)))
+		if !ls.unquiet {
+			if want := fmt.Sprintf("a=%d", g.NumStreams()-1-len(ls.held)); want != doAvail(g) {
+				ls.monitor += " MONITOR:available-" + doAvail(g) + "-but-held-" + want
+			}
+			if len(ls.held) != len(idsInUse(g)) {
+				ls.monitor += fmt.Sprintf(" MONITOR:held-%d-but-bits-%d", len(ls.held), len(idsInUse(g)))
+			}
 		}
 		for _, o := range obs {
 			if strings.Contains(o, "crash") {
@@ -721,7 +943,7 @@ func exec(op string) (res string) {
 	return "bad-op"
 }
 
-func parseConcMust(op string) (proto, k int, pre []string, scripts [][]string, sched []int, choose func([]int) int) {
+func parseConcMust(op string) (proto, k int, pre []string, scripts [][]string, sched []int, choose func(*lockstep, []int) int) {
 	proto, k, pre, scripts, sched, ok := parseConc(strings.Fields(op))
 	if !ok {
 		panic("bad fixed scenario: " + op)
@@ -840,7 +1062,7 @@ func genSeq(r *vh.Rng, out *vh.Out) {
 	} else {
 		cls += "/128"
 	}
-	out.Case(op, exec(op), cls, true)
+	emitCase(out, op, exec(op), cls, true)
 }
 
 // one in bigSmonOneIn 32768-id smon scenarios is kept (a complete fill costs the model > 1 s), at most
@@ -999,7 +1221,7 @@ func genSmon(r *vh.Rng, out *vh.Out) {
 		cls += "/128"
 	}
 	ans := exec(op)
-	out.Case(op, ans, cls, true)
+	emitCase(out, op, ans, cls, true)
 	out.Dist["smon-verdict/"+strings.SplitN(ans, ":", 2)[0]]++
 }
 
@@ -1211,14 +1433,30 @@ func genConc(r *vh.Rng, out *vh.Out) {
 }
 
 func emitConc(out *vh.Out, proto, k int, pre []string, scripts [][]string, sched []int, cls string) {
-	op := concLine(proto, k, pre, scripts, sched)
+	emitConcX(out, proto, k, pre, scripts, sched, nil, cls, false)
+}
+
+// emitConcX: the schedule is `sched` followed by the decisions of `choose` (if any); the op line carries the
+// complete schedule. alwaysMon: emit the spec-backed `mon` form for this scenario whatever the verdict.
+func emitConcX(out *vh.Out, proto, k int, pre []string, scripts [][]string, sched []int, choose func(*lockstep, []int) int, cls string, alwaysMon bool) {
 	if proto > 2 {
 		cls += "/32768"
 	}
-	ans, _, verdict, ls := runConcX(proto, k, pre, scripts, sched, nil)
-	out.Case(op, ans, cls, true)
-	monCase(out, op, verdict)
+	ans, full, verdict, ls := runConcX(proto, k, pre, scripts, sched, choose)
+	op := concLine(proto, k, pre, scripts, full)
+	emitCase(out, op, ans, cls, true)
+	if alwaysMon {
+		emitCase(out, "mon "+op, verdict, "mon/"+strings.SplitN(verdict, ":", 2)[0], true)
+	} else {
+		monCase(out, op, verdict)
+	}
 	if ls != nil {
+		if ls.multi > 0 || strings.Contains(ans, ":start:") {
+			out.Dist["obs/calls-returned-without-hand-over"]++
+		}
+		if ls.unquiet {
+			out.Dist["obs/hang-or-livelock"]++
+		}
 		if !ls.protocol {
 			out.Dist["mon-scope/no-client-protocol"]++
 		} else {
@@ -1257,7 +1495,402 @@ func emitConc(out *vh.Out, proto, k int, pre []string, scripts [][]string, sched
 	}
 }
 
+// ---------------------------------------------------------------- counter vs bitset windows
+
+// pause: thread t is run until it is parked in front of its atomic operation `y` for the nth time (or done);
+// y < 0: until it has been given `nth` scheduling decisions (independent of the yield numbering of the code)
+type pause struct{ t, y, nth int }
+
+// windowChoose: first the pauses, in order; then the other threads run to completion INSIDE the windows (one
+// after the other in index order, or interleaved at random); finally the paused threads finish, in index order.
+func windowChoose(pauses []pause, r *vh.Rng) func(ls *lockstep, en []int) int {
+	seen := make([]int, len(pauses))
+	cnt := make([]int, len(pauses))
+	for i := range seen {
+		seen[i] = -1
+	}
+	return func(ls *lockstep, en []int) int {
+		enabled := map[int]bool{}
+		for _, t := range en {
+			enabled[t] = true
+		}
+		paused := map[int]bool{}
+		for i, p := range pauses {
+			paused[p.t] = true
+			if !enabled[p.t] {
+				continue
+			}
+			if p.y < 0 {
+				if ls.nsteps[p.t] < p.nth {
+					return p.t
+				}
+				continue
+			}
+			if ls.nsteps[p.t] != seen[i] {
+				seen[i] = ls.nsteps[p.t]
+				if ls.at[p.t] == p.y {
+					cnt[i]++
+				}
+			}
+			if cnt[i] < p.nth {
+				return p.t
+			}
+		}
+		var others []int
+		for _, t := range en {
+			if !paused[t] {
+				others = append(others, t)
+			}
+		}
+		if len(others) > 0 {
+			if r != nil {
+				return others[r.Intn(len(others))]
+			}
+			return others[0]
+		}
+		return en[0]
+	}
+}
+
+var clearYields = []int{8, 9, 11}
+var getYields = []int{1, 2, 4, 5, 7}
+
+// fixedWindows (every run, both capacities): all ids handed out, one Clear(x) paused in front of each of its
+// atomic operations (load / CAS / decrement: in the last window the bit is clear and the counter still counts
+// the id), complete calls of another goroutine inside the window; the dual: one id free, a GetStream paused in
+// front of each of its atomic operations (in the last window the bit is set and the counter does not count the
+// id yet) while Clear / Available / GetStream run; two Clears paused at the same time.
+func fixedWindows(out *vh.Out) {
+	type cfg struct {
+		proto int
+		full  string
+		xs    []int
+		z     int // another id, in use
+	}
+	for _, c := range []cfg{{2, "G127", []int{1, 63, 64, 127}, 70}, {3, "G32767", []int{1, 16384, 32767}, 40}} {
+		for _, x := range c.xs {
+			cx := fmt.Sprintf("c%d", x)
+			cz := fmt.Sprintf("c%d", c.z)
+			inners := [][]string{{"g"}, {"g", "a"}, {"a", "g"}, {"g", "g"}, {cx}, {cx, "g"}, {"g", "r", "g"}, {"a", cz, "g", "g", "g"}}
+			if c.proto > 2 {
+				inners = [][]string{{"g"}, {"a", "g", "a"}, {cx, "g"}}
+			}
+			for _, y := range clearYields {
+				for _, inner := range inners {
+					emitConcX(out, c.proto, 2, []string{c.full}, [][]string{inner, {cx}}, nil, windowChoose([]pause{{1, y, 1}}, nil), "conc/window/clear", true)
+					if c.proto <= 2 {
+						emitConcX(out, c.proto, 2, []string{c.full}, [][]string{{cx, "a"}, inner}, nil, windowChoose([]pause{{0, y, 1}}, nil), "conc/window/clear", true)
+					}
+				}
+			}
+			ginners := [][]string{{cz}, {"a"}, {"g"}, {"g", "a"}, {cz, "g"}, {"a", cz, "a"}, {cx}}
+			if c.proto > 2 {
+				ginners = [][]string{{cz, "a"}, {"g", "a"}}
+			}
+			for _, y := range getYields {
+				for _, inner := range ginners {
+					emitConcX(out, c.proto, 2, []string{c.full, cx}, [][]string{inner, {"g", "a"}}, nil, windowChoose([]pause{{1, y, 1}}, nil), "conc/window/get", true)
+				}
+			}
+		}
+		// two releases paused at the same time, every combination of their windows; two / three acquisitions inside
+		x1, x2 := c.xs[0], c.xs[len(c.xs)-1]
+		for _, y1 := range clearYields {
+			for _, y2 := range clearYields {
+				emitConcX(out, c.proto, 3, []string{c.full}, [][]string{{"g", "g", "g", "a"}, {fmt.Sprintf("c%d", x1)}, {fmt.Sprintf("c%d", x2)}}, nil,
+					windowChoose([]pause{{1, y1, 1}, {2, y2, 1}}, nil), "conc/window/clear2", true)
+			}
+		}
+	}
+}
+
+// genWindow: random members of the same family: (almost) full generator of either capacity, 1..2 goroutines
+// paused in front of a random atomic operation of a Clear(held id) / GetStream, the 1..2 other goroutines run
+// complete scripts inside the windows (sequentially or interleaved at random), then everything finishes.
+var bigWindowBudget = 12
+
+func genWindow(r *vh.Rng, out *vh.Out) {
+	proto := 2
+	if r.Intn(10) == 0 && bigWindowBudget > 0 {
+		proto = 3
+		bigWindowBudget--
+	}
+	capN := capOf(proto)
+	pre := []string{fmt.Sprintf("G%d", capN-1)}
+	if r.Intn(12) == 0 {
+		pre = append(pre, presetTok(r, capN/64))
+	}
+	nfree := []int{0, 0, 0, 1, 1, 2}[r.Intn(6)]
+	free := map[int]bool{}
+	base := 1 + r.Intn(capN-1)
+	for i := 0; i < nfree; i++ {
+		id := base + r.Intn(4)
+		if r.Intn(3) == 0 {
+			id = 1 + r.Intn(capN-1)
+		}
+		if id >= capN {
+			id = capN - 1
+		}
+		if !free[id] {
+			free[id] = true
+			pre = append(pre, fmt.Sprintf("c%d", id))
+		}
+	}
+	heldID := func() int {
+		for {
+			id := 1 + r.Intn(capN-1)
+			if r.Intn(3) == 0 {
+				id = base + r.Intn(6)
+			}
+			if id >= 1 && id < capN && !free[id] {
+				return id
+			}
+		}
+	}
+	k := 2 + r.Intn(3)
+	np := 1
+	if k >= 3 && r.Intn(3) == 0 {
+		np = 2
+		if k >= 4 && r.Intn(2) == 0 {
+			np = 3
+		}
+	}
+	scripts := make([][]string, k)
+	used := map[int]bool{}
+	var pauses []pause
+	var pausedIDs []int
+	perm := []int{0, 1, 2, 3}[:k]
+	shuffle(r, perm)
+	protocol := r.Intn(5) != 0
+	for i := 0; i < np; i++ {
+		t := perm[i]
+		if r.Intn(10) < 7 {
+			x := heldID()
+			for protocol && used[x] {
+				x = heldID()
+			}
+			used[x] = true
+			pausedIDs = append(pausedIDs, x)
+			scripts[t] = []string{fmt.Sprintf("c%d", x)}
+			if r.Intn(4) == 0 {
+				pauses = append(pauses, pause{t, -1, r.Intn(4)})
+			} else {
+				pauses = append(pauses, pause{t, clearYields[r.Intn(3)], 1})
+			}
+		} else {
+			scripts[t] = []string{"g"}
+			if r.Intn(4) == 0 {
+				pauses = append(pauses, pause{t, -1, r.Intn(8)})
+			} else {
+				pauses = append(pauses, pause{t, getYields[r.Intn(5)], 1 + r.Intn(4)/3})
+			}
+		}
+		if r.Intn(3) == 0 {
+			scripts[t] = append(scripts[t], []string{"a", "g", "r"}[r.Intn(3)])
+		}
+	}
+	for i := np; i < k; i++ {
+		t := perm[i]
+		for n := 1 + r.Intn(3); n > 0; n-- {
+			switch y := r.Intn(12); {
+			case y < 6:
+				scripts[t] = append(scripts[t], "g")
+			case y < 8:
+				scripts[t] = append(scripts[t], "a")
+			case y < 9:
+				scripts[t] = append(scripts[t], "r")
+			case y < 11 || protocol || len(pausedIDs) == 0:
+				x := heldID()
+				for protocol && used[x] {
+					x = heldID()
+				}
+				used[x] = true
+				scripts[t] = append(scripts[t], fmt.Sprintf("c%d", x))
+			default: // a second release of an id whose release is paused (no client protocol)
+				scripts[t] = append(scripts[t], fmt.Sprintf("c%d", pausedIDs[r.Intn(len(pausedIDs))]))
+			}
+		}
+	}
+	var rr *vh.Rng
+	if r.Intn(2) == 0 {
+		rr = r
+	}
+	emitConcX(out, proto, k, pre, scripts, nil, windowChoose(pauses, rr), fmt.Sprintf("conc/window/random/k%d", k), true)
+}
+
+// ---------------------------------------------------------------- "any history": the rotating offset near the ends of its range
+
+// presetTok: the offset word as it is after ~2^32 / ~2^31 / ~2^16 calls (k below the boundary, up to three
+// rotations and a bit), or an arbitrary value
+func presetTok(r *vh.Rng, nb int) string {
+	k := r.Intn(3*nb + 20)
+	if r.Intn(3) == 0 {
+		k = r.Intn(6)
+	}
+	switch r.Intn(8) {
+	case 0, 1, 2, 3:
+		return fmt.Sprintf("Ot%d", k)
+	case 4, 5:
+		return fmt.Sprintf("Om%d", k)
+	case 6:
+		return fmt.Sprintf("O%d", uint64(65536-k))
+	default:
+		return fmt.Sprintf("O%d", r.U64()&0xffffffff)
+	}
+}
+
+// offsetScenario: prefix `pre` (fill, holes), preset, then `pairs` acquire/release steps with `hold` ids kept in
+// flight (hold = 0: release at once), Available now and then. Emitted twice: judged by the abstract
+// specification (`smon`, spec-backed) and with the exact answers (`seq`, model-vs-code: the rotation start
+// word across the wrap).
+func offsetScenario(out *vh.Out, r *vh.Rng, proto int, pre []string, tok string, pairs, hold int, cls string) {
+	withSeq := proto <= 2 || len(pre) == 0 // (the model pays ~1 s for filling the big generator)
+	g := gocql.VerifStreamsNew(proto)
+	var ops []string
+	emit := func(tok string) string {
+		ops = append(ops, tok)
+		a, _ := seqTok(g, tok)
+		return a
+	}
+	for _, p := range pre {
+		emit(p)
+	}
+	emit(tok)
+	var fifo []int
+	for i := 0; i < pairs; i++ {
+		a := emit("g")
+		if strings.HasSuffix(a, ":t") {
+			id, _ := strconv.Atoi(strings.TrimSuffix(a, ":t"))
+			fifo = append(fifo, id)
+		}
+		for len(fifo) > hold {
+			emit(fmt.Sprintf("c%d", fifo[0]))
+			fifo = fifo[1:]
+		}
+		if r != nil && r.Intn(40) == 0 {
+			emit("a")
+			if r.Intn(4) == 0 {
+				emit(presetTok(r, capOf(proto)/64))
+			}
+		}
+	}
+	emit("a")
+	if proto > 2 {
+		cls += "/32768"
+	} else {
+		cls += "/128"
+	}
+	op := fmt.Sprintf("smon %d %s", proto, strings.Join(ops, " "))
+	ans := exec(op)
+	emitCase(out, op, ans, "smon/"+cls, true)
+	out.Dist["smon-verdict/"+strings.SplitN(ans, ":", 2)[0]]++
+	if withSeq {
+		op = fmt.Sprintf("seq %d %s s", proto, strings.Join(ops, " "))
+		emitCase(out, op, exec(op), "seq/"+cls, true)
+	}
+}
+
+// fixedOffsets (every run): for both capacities the offset word at 2^32 - k and 2^31 - k followed by
+// 3*numBuckets+16 acquire/release pairs (so that every start word is passed on both sides of the boundary), on
+// a fresh generator and on full generators with a single hole in the first / the last / a middle word (there
+// the scan has to walk from every start word to the one word with a free id)
+func fixedOffsets(out *vh.Out) {
+	for k := 0; k <= 6; k++ {
+		for _, b := range []string{"Ot", "Om"} {
+			tok := fmt.Sprintf("%s%d", b, k)
+			offsetScenario(out, nil, 2, nil, tok, 3*2+16, 0, "offset-preset/fresh")
+			offsetScenario(out, nil, 2, []string{"G127", "c1"}, tok, 3*2+16, 0, "offset-preset/one-hole")
+			offsetScenario(out, nil, 2, []string{"G127", "c127"}, tok, 3*2+16, 0, "offset-preset/one-hole")
+			offsetScenario(out, nil, 2, []string{"G127", "c63", "c64"}, tok, 3*2+16, 1, "offset-preset/two-holes")
+			offsetScenario(out, nil, 2, []string{"G60"}, tok, 3*2+16, 3, "offset-preset/partial")
+		}
+	}
+	for _, tok := range []string{"Ot1030", "Om1030", "Ot3"} {
+		offsetScenario(out, nil, 3, nil, tok, 3*512+16, 0, "offset-preset/fresh")
+	}
+	offsetScenario(out, nil, 3, []string{"G32767", "c5"}, "Ot520", 3*512+16, 0, "offset-preset/one-hole")
+	offsetScenario(out, nil, 3, []string{"G32767", "c16400"}, "Om520", 3*512+16, 0, "offset-preset/one-hole")
+}
+
+var bigOffsetBudget = 2
+var bigOffsetFills = false
+
+func genOffset(r *vh.Rng, out *vh.Out) {
+	proto := 2
+	if r.Intn(40) == 0 && bigOffsetBudget > 0 {
+		proto = 3
+		bigOffsetBudget--
+	}
+	capN := capOf(proto)
+	nb := capN / 64
+	var pre []string
+	free := 0
+	cls := "offset-preset/fresh"
+	shape := r.Intn(5)
+	if proto > 2 && !bigOffsetFills {
+		shape = 4
+	}
+	switch shape {
+	case 0, 1: // full, 1..3 holes anywhere
+		pre = []string{fmt.Sprintf("G%d", capN-1)}
+		seen := map[int]bool{}
+		for i := 1 + r.Intn(3); i > 0; i-- {
+			x := 1 + r.Intn(capN-1)
+			if !seen[x] {
+				seen[x] = true
+				free++
+				pre = append(pre, fmt.Sprintf("c%d", x))
+			}
+		}
+		cls = "offset-preset/holes"
+	case 2:
+		fill := 1 + r.Intn(capN-2)
+		free = capN - 1 - fill
+		pre = []string{fmt.Sprintf("G%d", fill)}
+		cls = "offset-preset/partial"
+	default:
+		free = capN - 1
+	}
+	hold := 0
+	if r.Intn(3) == 0 {
+		hold = r.Intn(free + 1)
+		if hold > 70 {
+			hold = 70
+		}
+	}
+	offsetScenario(out, r, proto, pre, presetTok(r, nb), 3*nb+16+r.Intn(8), hold, cls)
+}
+
 var monTick int
+
+// priority: spec-backed lines on which a property monitor fired. `check` looks at the first 50 disagreements
+// only; when the code under test also changed its yield pattern, hundreds of model-vs-code differences of
+// `conc` lines come first. These lines are therefore ALSO put at the head of ops.txt / impl.txt at the end of the run.
+var priority [][2]string
+
+func emitCase(out *vh.Out, op, ans, cls string, nontrivial bool) {
+	out.Case(op, ans, cls, nontrivial)
+	if strings.HasPrefix(ans, "violated") && (strings.HasPrefix(op, "mon ") || strings.HasPrefix(op, "smon ")) && len(priority) < 40 {
+		priority = append(priority, [2]string{op, ans})
+	}
+}
+
+func prependPriority(dir string) {
+	if len(priority) == 0 {
+		return
+	}
+	for i, name := range []string{"/ops.txt", "/impl.txt"} {
+		old, err := os.ReadFile(dir + name)
+		if err != nil {
+			return
+		}
+		var sb strings.Builder
+		for _, p := range priority {
+			sb.WriteString(p[i] + "\n")
+		}
+		os.WriteFile(dir+name, append([]byte(sb.String()), old...), 0o644)
+	}
+}
 
 // monCase emits the spec-backed form of a lock-step scenario (`mon conc …` → ok | violated:…):
 // always when a monitor fired, otherwise for one scenario in eight.
@@ -1268,7 +1901,7 @@ func monCase(out *vh.Out, concOp string, verdict string) {
 			return
 		}
 	}
-	out.Case("mon "+concOp, verdict, "mon/"+strings.SplitN(verdict, ":", 2)[0], true)
+	emitCase(out, "mon "+concOp, verdict, "mon/"+strings.SplitN(verdict, ":", 2)[0], true)
 }
 
 // enumerate explores schedules of the scenario by stateless DFS (re-execution). Order of the
@@ -1287,7 +1920,7 @@ func enumerate(out *vh.Out, proto, k int, pre []string, scripts [][]string, maxP
 		last := -1
 		npre := 0
 		var cur []choice
-		choose := func(enabled []int) int {
+		choose := func(_ *lockstep, enabled []int) int {
 			var order []int
 			lastEnabled := false
 			for _, t := range enabled {
@@ -1320,7 +1953,10 @@ func enumerate(out *vh.Out, proto, k int, pre []string, scripts [][]string, maxP
 			return t
 		}
 		ans, full, verdict := runConc(proto, k, pre, scripts, nil, choose)
-		out.Case(concLine(proto, k, pre, scripts, full), ans, cls, true)
+		if strings.HasPrefix(ans, "skipped-after-") {
+			return count
+		}
+		emitCase(out, concLine(proto, k, pre, scripts, full), ans, cls, true)
 		monCase(out, concLine(proto, k, pre, scripts, full), verdict)
 		count++
 		// next schedule: deepest decision with an untried alternative
@@ -1381,11 +2017,21 @@ func exhaustive(r *vh.Rng, out *vh.Out) {
 		enumerate(out, 2, 2, pre, [][]string{{"c1", "g"}, {"c1", "c1"}}, -1, "exh/2x2/double-release/all", 60000)
 		enumerate(out, 2, 3, pre, [][]string{{"c1", "a"}, {"c1"}, {"g", "r"}}, 3, "exh/3x2/double-release/pre<=3", 60000)
 	}
+	// counter vs bitset windows: ALL schedules of a release racing acquisitions on a full generator; two releases
+	// and two acquisitions (<= 3 preemptions); the offset CAS of two acquisitions racing across the wrap of the word
+	for _, sc := range [][][]string{{{"c1", "a"}, {"g", "a", "g"}}, {{"c127"}, {"g", "g"}}, {{"c64", "g"}, {"a", "g"}}} {
+		enumerate(out, 2, 2, []string{"G127"}, sc, -1, "exh/2x/window/all", 60000)
+	}
+	enumerate(out, 2, 3, []string{"G127"}, [][]string{{"c1"}, {"c127"}, {"g", "g", "a"}}, 3, "exh/3x/window/pre<=3", 60000)
+	for _, tok := range []string{"Ot0", "Ot1", "Ot2", "Ot3", "Om1", "Om2"} {
+		enumerate(out, 2, 2, []string{tok}, [][]string{{"g"}, {"g"}}, -1, "exh/2x1/offset-wrap/all", 60000)
+		enumerate(out, 2, 2, []string{"G127", "c1", tok}, [][]string{{"g"}, {"g", "a"}}, -1, "exh/2x1/offset-wrap/all", 60000)
+	}
 	// every pair of holes of a full 128-id generator
 	for x := 1; x < 128; x++ {
 		for y := x + 1; y < 128; y++ {
 			op := fmt.Sprintf("smon 2 G127 c%d c%d g g g a", y, x)
-			out.Case(op, exec(op), "smon/two-holes/128", true)
+			emitCase(out, op, exec(op), "smon/two-holes/128", true)
 		}
 	}
 	_ = r
@@ -1401,7 +2047,7 @@ func main() {
 	id0, _ := g0.GetStream()
 	g0.Clear(id0)
 	g0.Available()
-	if len(seen) == 0 || seen[0] != 1 {
+	if len(seen) == 0 { // (a yield sequence other than the expected one is not fatal: the lock-step runs report it)
 		fmt.Fprintf(os.Stderr, "c08: the verification yield points yield(1..12) of internal/streams/streams.go are missing "+
 			"(sequential GetStream/Clear/Available passed %v, the unchanged code passes [1 2 4 5 7 8 9 11 12]); "+
 			"apply harness/cmd/c08/hooks/streams_yield.patch\n", seen)
@@ -1422,6 +2068,9 @@ func main() {
 		bigFillOneIn = 600
 		bigSmonOneIn = 1200
 		bigSmonBudget = 12
+		bigWindowBudget = 200
+		bigOffsetBudget = 12
+		bigOffsetFills = true
 	}
 	// fixed boundary scenarios: use every id sequentially, then fail, both capacities
 	for _, op := range []string{
@@ -1434,7 +2083,7 @@ func main() {
 		"seq 2 c128 a",
 		"seq 2 c127 c64 c63 a s",
 	} {
-		out.Case(op, exec(op), "seq/fixed", true)
+		emitCase(out, op, exec(op), "seq/fixed", true)
 	}
 	// fixed lock-step scenarios: Available() observed while a Clear sits between its CAS and its
 	// decrement (transiently -1, theorem C08_cex_available_transient); last free id of a word raced for
@@ -1445,7 +2094,7 @@ func main() {
 		"conc 2 2 P G127 T c64 g T g g S 010101010101010101010101",
 		"conc 4 2 P G40 T g r T g r S 0101010101010101",
 	} {
-		out.Case(op, exec(op), "conc/fixed", true)
+		emitCase(out, op, exec(op), "conc/fixed", true)
 	}
 	// fixed sequential spec-monitor scenarios, both capacities: fill completely, release out of order (holes below
 	// and above the number of ids in use of a word, first / last word, id 1, id cap-1), refill completely, fail
@@ -1456,12 +2105,12 @@ func main() {
 		"smon 4 G32767 g a c70 c1 c32767 c32704 c32703 c16384 c63 c64 a G7 g a c9 c9 c40000 g g",
 		"smon 2 g c0 g a",
 	} {
-		out.Case(op, exec(op), "smon/fixed", true)
+		emitCase(out, op, exec(op), "smon/fixed", true)
 	}
 	// every single hole of a full 128-id generator: release x, GetStream must succeed, the next one must fail
 	for x := 1; x < 128; x++ {
 		op := fmt.Sprintf("smon 2 G127 c%d g g a", x)
-		out.Case(op, exec(op), "smon/single-hole/128", true)
+		emitCase(out, op, exec(op), "smon/single-hole/128", true)
 	}
 	// the same on ONE full 32768-id generator, for every position of the second word and ids at the borders
 	{
@@ -1475,7 +2124,7 @@ func main() {
 			toks = append(toks, fmt.Sprintf("c%d", x), "g", "g")
 		}
 		op := "smon 3 " + strings.Join(toks, " ")
-		out.Case(op, exec(op), "smon/single-hole/32768", true)
+		emitCase(out, op, exec(op), "smon/single-hole/32768", true)
 	}
 	// fixed lock-step scenarios outside the client protocol: racing double release of one id by 2 and 3
 	// goroutines; double release racing the re-acquisition of the id (the excluded case 2: the unchanged code
@@ -1488,9 +2137,11 @@ func main() {
 	} {
 		op = strings.Replace(op, "P - T", "P T", 1)
 		ans, _, verdict := runConc(parseConcMust(op))
-		out.Case(op, ans, "conc/fixed", true)
-		out.Case("mon "+op, verdict, "mon/fixed", true)
+		emitCase(out, op, ans, "conc/fixed", true)
+		emitCase(out, "mon "+op, verdict, "mon/fixed", true)
 	}
+	fixedWindows(out)
+	fixedOffsets(out)
 	for i := 0; i < 1500*mult; i++ {
 		genSeq(r, out)
 	}
@@ -1507,8 +2158,15 @@ func main() {
 	for i := 0; i < 2500*mult; i++ {
 		genConcRace(r, out)
 	}
+	for i := 0; i < 1500*mult; i++ {
+		genWindow(r, out)
+	}
+	for i := 0; i < 150*mult; i++ {
+		genOffset(r, out)
+	}
 	if tier == "thorough" {
 		exhaustive(r, out)
 	}
 	out.Close(nil)
+	prependPriority(path)
 }
